@@ -52,18 +52,15 @@ func (cd *CorrectionDefinition) Merge(other *CorrectionDefinition) *CorrectionDe
 	if cd.Schema != other.Schema {
 		return cd
 	}
-	if other.CopyTax {
-		cd.CopyTax = other.CopyTax
-	}
-	cd = &CorrectionDefinition{
+	// build a new definition: neither operand nor their lists are written
+	return &CorrectionDefinition{
 		Schema:         cd.Schema,
-		Types:          append(cd.Types, other.Types...),
-		Extensions:     append(cd.Extensions, other.Extensions...),
+		Types:          append(append([]cbc.Key{}, cd.Types...), other.Types...),
+		Extensions:     append(append([]cbc.Key{}, cd.Extensions...), other.Extensions...),
 		ReasonRequired: cd.ReasonRequired || other.ReasonRequired,
-		Stamps:         append(cd.Stamps, other.Stamps...),
-		CopyTax:        cd.CopyTax,
+		Stamps:         append(append([]cbc.Key{}, cd.Stamps...), other.Stamps...),
+		CopyTax:        cd.CopyTax || other.CopyTax,
 	}
-	return cd
 }
 
 // HasType returns true if the correction definition has a type that matches the one provided.
